@@ -725,24 +725,16 @@ def classify(case, obs, f):
         return None
     side = 'P' if own == 0 else 'T'
     if kind in ('commit_raised', 'rollback_raised'):
-        # expire() raised AttributeError on a visited instance whose flag is clear but which has lost an attribute
-        if f.get('exc') != 'EAttribute':
-            return None
-        for v in before['slots']:
-            if v is not None and v[0] == side and v[5] and v[1] in walked and not v[3] and len(cached(v)) < 2:
-                return 'expire_raises_on_attributeless_instance'
-        return None
+        return None          # expire_raises_on_attributeless_instance is fixed (1aded16): commit/rollback must not raise
     v = before['slots'][f['slot']]
     if v[3] and cached(v):
-        return 'expire_skips_flagged_instance'          # flagged expired, yet an attribute was cached again by an assignment
+        return None          # flagged expired yet caching: expire_skips_flagged_instance, fixed in 3f1b5b1
     if not v[5]:
         return 'commit_misses_purged_parent_instance' if own == 0 else 'rollback_misses_purged_instance'
     if v[1] not in walked:
         # the finding is about rows UPDATED through an instance the transaction's cache has lost; a row deleted in the
         # transaction must be in _deletedCache, so a miss there is something else
         return 'commit_forgets_uncached_row' if own == 0 and f.get('row') is not None else None
-    if not v[3] and len(cached(v)) < 2:
-        return 'expire_raises_on_attributeless_instance'
     return None
 
 
